@@ -5,6 +5,23 @@ pub type Body = fn(&mut ReplaySource);
 
 pub fn bodies() -> Vec<(&'static str, Body)> {
     vec![
+        ("compute_and_or_g0", crate::c01_compute::compute_and_or_g0::<ReplaySource> as Body),
+        ("compute_and_or_g1", crate::c01_compute::compute_and_or_g1::<ReplaySource> as Body),
+        ("compute_and_or_g2", crate::c01_compute::compute_and_or_g2::<ReplaySource> as Body),
+        ("compute_and_or_g3", crate::c01_compute::compute_and_or_g3::<ReplaySource> as Body),
+        ("compute_and_or_g4", crate::c01_compute::compute_and_or_g4::<ReplaySource> as Body),
+        ("compute_and_or_g5", crate::c01_compute::compute_and_or_g5::<ReplaySource> as Body),
+        ("compute_and_or_g6", crate::c01_compute::compute_and_or_g6::<ReplaySource> as Body),
+        ("compute_and_or_g7", crate::c01_compute::compute_and_or_g7::<ReplaySource> as Body),
+        ("compute_and_or_g8", crate::c01_compute::compute_and_or_g8::<ReplaySource> as Body),
+        ("se_prefix_simple", crate::c08_steps::se_prefix_simple::<ReplaySource> as Body),
+        ("se_prefix_nested", crate::c08_steps::se_prefix_nested::<ReplaySource> as Body),
+        ("se_field", crate::c08_steps::se_field::<ReplaySource> as Body),
+        ("se_index", crate::c08_steps::se_index::<ReplaySource> as Body),
+        ("se_type_instantiation", crate::c08_steps::se_type_instantiation::<ReplaySource> as Body),
+        ("se_table_entry", crate::c08_steps::se_table_entry::<ReplaySource> as Body),
+        ("multiple_values_calls", crate::c08_steps::multiple_values_calls::<ReplaySource> as Body),
+        ("multiple_values_others", crate::c08_steps::multiple_values_others::<ReplaySource> as Body),
         ("ev_if_0", crate::c08_steps::ev_if_0::<ReplaySource> as Body),
         ("ev_if_1", crate::c08_steps::ev_if_1::<ReplaySource> as Body),
         ("ev_if_2", crate::c08_steps::ev_if_2::<ReplaySource> as Body),
